@@ -2,7 +2,7 @@
 using namespace smooth;
 MC_SUBCHECK(galilei)
 {
-  const int d = mc::thorough() ? 7 : 4;
+  const int d = mc::thorough() ? 7 : 5;
   {
     c16::Harness<Galileid> h("Galileid");
     h.addview("r3_v()", 0, 3, [](const auto & x) { return x.r3_v().eval(); });
